@@ -65,6 +65,8 @@ type Machine struct {
 	Ghost      map[string]value
 	Thorough   bool
 	MapNondet  bool
+	BigText    bool // exact decimal text of symbolic big.Int (zz.ExactBigText)
+	digitSeqs  []digitInfo
 	fresh      int
 	Approx     int // number of over-approximated operations on this path
 }
